@@ -101,6 +101,10 @@ func intWidth(t types.Type) (bits int, unsigned bool) {
 
 func calleeName(c *ssa.Call) string {
 	if f := c.Call.StaticCallee(); f != nil {
+		// an instance of a generic library function goes by the name of the generic
+		if o := f.Origin(); o != nil && o != f {
+			return o.String()
+		}
 		return f.String()
 	}
 	return ""
@@ -335,6 +339,26 @@ func (s *Fn) clobbers(in ssa.Instruction, k addrK) bool {
 		}
 		if _, fv := k.root.(*ssa.FreeVar); fv {
 			return false // immutability checked separately
+		}
+		// read-only library searches over a slice change nothing but what their callbacks change
+		switch calleeName(x) {
+		case "slices.Index", "slices.IndexFunc", "slices.Contains", "slices.ContainsFunc", "slices.Equal", "slices.EqualFunc", "bytes.ContainsFunc", "bytes.IndexFunc", "strings.ContainsFunc", "strings.IndexFunc":
+			for _, arg := range x.Call.Args {
+				if _, isFn := arg.Type().Underlying().(*types.Signature); !isFn {
+					continue
+				}
+				var fn *ssa.Function
+				switch y := arg.(type) {
+				case *ssa.Function:
+					fn = y
+				case *ssa.MakeClosure:
+					fn, _ = y.Fn.(*ssa.Function)
+				}
+				if fn == nil || !s.e.isPure(fn) {
+					return true
+				}
+			}
+			return false
 		}
 		return !s.e.isPure(x.Call.StaticCallee())
 	case *ssa.MapUpdate, *ssa.Defer, *ssa.Go:
